@@ -184,6 +184,26 @@ func (propC10) Gen(r *Rng, run uint64, tier string) *Plan {
 		qs.Without = r.Bool(0.4)
 		seen := map[string]bool{}
 		vocab := c10GroupVocab
+		if pr := r.Sub("group-by-what-is-there"); pr.Bool(0.35) {
+			// group by the Docker labels this world actually has (all of them, or some)
+			pool := map[string]bool{}
+			for i := range p.World.Containers {
+				for k := range p.World.Containers[i].Labels {
+					pool[SanitizeLabel(k)] = true
+				}
+			}
+			if names := sortedKeys(pool); len(names) > 0 && len(names) <= 6 {
+				vocab = names
+				if pr.Bool(0.5) {
+					for _, l := range names {
+						if !seen[l] && !((qs.Kind == "unwrap" || qs.Kind == "presence") && l == "weight") {
+							seen[l] = true
+							qs.Labels = append(qs.Labels, l)
+						}
+					}
+				}
+			}
+		}
 		if spec.Msg == "jsonmix" {
 			vocab = append(append([]string(nil), vocab...), "s", "s", "s", "t")
 		}
